@@ -19,14 +19,22 @@ def parseHist (s : String) : Option (List (Option Int × List Obs)) :=
     | [st, os] => do pure (← parseStart st, ← parseRun os)
     | _ => none
 
-/-- which fetches each handler performs before it can return nil -/
-def performs (handler failAt : String) : Bool :=
-  match handler with
-  | "evmdeposit" | "evmretry1" | "evmretry2" => failAt == "events"
-  | "subdeposit" | "subsys" => failAt == "events"
-  | "subretry" => failAt == "events" || failAt == "head" || failAt == "block"
-  | "btcdeposit" => failAt == "hash" || failAt == "block" || failAt == "nilblock"
-  | _ => false
+/-- every node (or store) read each real handler makes while it handles a range; `none` = not a read of that handler
+    (the generator must not ask for it). C05: if ANY of them fails the range must not count as handled. -/
+def performs (handler failAt : String) : Option Bool :=
+  let reads : List String := match handler with
+    | "evmdeposit" => ["events", "lookup"]
+    | "evmretry1" => ["events", "retrydeposits", "lookup", "propstatus"]
+    | "evmretry2" => ["events"]
+    | "subdeposit" => ["events"]
+    | "subsys" => ["events", "metadata"]
+    | "subretry" => ["events", "head", "block", "blockhash", "blockevents"]
+    | "btcdeposit" => ["hash", "block", "nilblock"]
+    | _ => []
+  if reads.isEmpty then none
+  else if failAt == "-" then some false
+  else if reads.contains failAt then some true
+  else none
 
 def handle (op : String) (args : List String) (impl : String) : Option Verdict :=
   match op, args with
@@ -55,18 +63,22 @@ def handle (op : String) (args : List String) (impl : String) : Option Verdict :
     let rescan := m.any (fun l => l.2.any (fun o => o.store.isSome))
     return ⟨showHist m, ok, s!"{op}:{kindStr kind}:lifes={min ls.length 3}:flags={flags}:crash={crashed}:panic={panics}:hfail={hfail}:sfail={sfail}:progress={rescan}"⟩
   | "evmdeposits", [calls] => some <| Id.run do
-    -- history-free: every call returns and forwards exactly the deposits of its own range that can be resolved
+    -- history-free: every call forwards exactly the deposits of its own range that have a handler here; a range during
+    -- which the node could not be read (`m`: the on-chain handler lookup fails) must FAIL so that it is scanned again —
+    -- the code as it is drops that deposit and reports success: known finding C05-evm-deposit-lookup-swallowed
     let cs := calls.splitOn "/"
-    let exp := cs.map fun c => s!"ok:{((items c ",").filter (· == "r")).length}"
+    let exp := cs.map fun c =>
+      if (items c ",").contains "m" then "err" else s!"ok:{((items c ",").filter (· == "r")).length}"
     let m := ";".intercalate exp
     return ⟨m, impl == m, s!"evmdeposits:calls={min cs.length 4}:unresolvable={calls.contains 'u' || calls.contains 'm'}"⟩
   | "hfetch", [handler, failAt] => some <| Id.run do
-    let fails := performs handler failAt
+    let some fails := performs handler failAt | return bad
     -- a node that answers without error and without a block: the nil dereference is a panic (process death), never success
     if failAt == "nilblock" then return ⟨"panic", impl != "ok", s!"hfetch:{handler}:{failAt}"⟩
     let m := handlerResult fails
-    -- property: a failed fetch that the handler depends on surfaces as an error; no failure ⇒ nil
-    let ok := if fails then impl == "err" else if failAt == "-" then impl == "ok" else true
+    -- property: a node read that fails while the range is handled must make HandleEvents fail (the listener then retries
+    -- the range and neither stores nor advances); without a failure the handler returns nil
+    let ok := if fails then impl == "err" else impl == "ok"
     return ⟨m, ok, s!"hfetch:{handler}:{failAt}"⟩
   | "align", [s, k] => some <| Id.run do
     let some s := s.toInt? | return bad
